@@ -502,9 +502,51 @@ M("c02-dotzero-on-exponent", "C02", "json_object.c",
 M("c02-benign-nozero-rewrite", "C02", "json_object.c",
   "\t\t\tif (p != q)\n\t\t\t\tmemmove(p, q, strlen(q) + 1);\n\t\t\tsize = (int)strlen(buf);\n",
   "\t\t\tmemmove(p, q, strlen(q) + 1);\n\t\t\tsize = (int)((p - buf) + strlen(p));\n", expect="silent")
+M("c01-int-conversion-altered", "C01", "json_util.c",
+  "\tval = strtoll(buf, &end, 10);\n\tif (end != buf)\n\t\t*retval = val;",
+  "\tval = strtoll(buf, &end, 10);\n\tif (end != buf)\n\t\t*retval = (errno == ERANGE) ? 0 : val;", needle="C01.R6")
+M("c01-double-underflow-flushed", "C02", "json_tokener.c",
+  "\t*retval = strtod(buf, &end);\n",
+  "\t*retval = strtod(buf, &end);\n\tif (*retval > -1e-300 && *retval < 1e-300)\n\t\t*retval = 0.0;\n", needle="C01.R6")
+M("c01-benign-conversion-local", "C01", "json_tokener.c",
+  "\t*retval = strtod(buf, &end);\n",
+  "\tdouble d = strtod(buf, &end);\n\t*retval = d;\n", expect="silent")
 M("c02-benign-escape-reorder", "C02", "json_object.c",
   "\t\t\tif (c == '\\b')\n\t\t\t\tprintbuf_memappend(pb, \"\\\\b\", 2);\n\t\t\telse if (c == '\\n')\n\t\t\t\tprintbuf_memappend(pb, \"\\\\n\", 2);",
   "\t\t\tif (c == '\\n')\n\t\t\t\tprintbuf_memappend(pb, \"\\\\n\", 2);\n\t\t\telse if (c == '\\b')\n\t\t\t\tprintbuf_memappend(pb, \"\\\\b\", 2);", expect="silent")
+
+
+def PATCH(mid, prop, patch, expect="fire", needle="", tier="quick"):
+    """a mutant given as a diff under tools/mutants/ (several hunks)"""
+    MUTANTS.append(dict(id=mid, prop=prop, file=None, patch=os.path.join(HERE, "tools", "mutants", patch), old=None, new=None,
+                        expect=expect, needle=needle, tier=tier))
+
+
+PATCH("c07-benign-resize-helper", "C07", "arraylist-resize-helper-benign.diff", expect="silent")
+PATCH("c08-benign-resize-helper", "C08", "arraylist-resize-helper-benign.diff", expect="silent")
+M("c11-raw-len-positive-test", "C11", "json_object.c",
+  "\tcase json_type_string: return (JC_STRING_C(jso)->len != 0);", "\tcase json_type_string: return (JC_STRING_C(jso)->len > 0);", needle="C11.R7")
+M("c11-benign-len-zero-test", "C11", "json_object.c",
+  "\tcase json_type_string: return (JC_STRING_C(jso)->len != 0);", "\tcase json_type_string: return !(JC_STRING_C(jso)->len == 0);", expect="silent")
+M("c11-raw-len-as-length", "C11", "json_object.c",
+  "\tjson_escape_str(pb, get_string_component(jso), len < 0 ? -(ssize_t)len : len, flags);",
+  "\tjson_escape_str(pb, get_string_component(jso), len, flags);", needle="C11.R7")
+M("c12-unescape-rescan", "C12", "json_pointer.c",
+  "\t\t*p = repl_char;\n\t\tp++;\n\t\tslen -= skip;\n\t\tmemmove(p, (p + skip), slen - (p - s) + 1); /* includes null char too */",
+  "\t\t*p = repl_char;\n\t\tslen -= skip;\n\t\tmemmove(p + 1, p + 1 + skip, slen - (p - s)); /* includes null char too */", needle="C12.R7")
+M("c12-unescape-order-swapped-in-helper", "C12", "json_pointer.c",
+  "\tstring_replace_all_occurrences_with_char(token, \"~1\", '/');\n\tstring_replace_all_occurrences_with_char(token, \"~0\", '~');",
+  "\tstring_replace_all_occurrences_with_char(token, \"~0\", '~');\n\tstring_replace_all_occurrences_with_char(token, \"~1\", '/');", needle="C12.R7")
+M("c12-benign-unescape-rewrite", "C12", "json_pointer.c",
+  "\t\t*p = repl_char;\n\t\tp++;\n\t\tslen -= skip;\n\t\tmemmove(p, (p + skip), slen - (p - s) + 1); /* includes null char too */",
+  "\t\t*p++ = repl_char;\n\t\tslen -= skip;\n\t\tmemmove(p, p + skip, strlen(p + skip) + 1);", expect="silent")
+M("c05-copy-leak-object-branch", "C05", "json_object.c",
+  "\t\t\t                                         &jso, shallow_copy) < 0)\n\t\t\t{\n\t\t\t\tjson_object_put(jso);\n\t\t\t\treturn -1;",
+  "\t\t\t                                         &jso, shallow_copy) < 0)\n\t\t\t{\n\t\t\t\treturn -1;", needle="C05.R6")
+M("c13-op-prefix-compare", "C13", "json_patch.c",
+  "\t\tif (!strcmp(op, \"test\"))", "\t\tif (!strncmp(op, \"test\", 4))", needle="C13.R2")
+M("c13-benign-op-bounded-compare", "C13", "json_patch.c",
+  "\t\tif (!strcmp(op, \"test\"))", "\t\tif (!strncmp(op, \"test\", 5))", expect="silent")
 
 
 def sh(cmd, **kw):
@@ -520,14 +562,23 @@ def main():
     for m in MUTANTS:
         if want and m["prop"] not in want and m["id"] not in [w.lower() for w in want]:
             continue
-        path = os.path.join(REPO, m["file"])
-        src = open(path).read()
-        if src.count(m["old"]) != 1:
-            print("SKIP %-28s pattern occurs %d times in %s" % (m["id"], src.count(m["old"]), m["file"]))
-            fails += 1
-            continue
+        if m.get("patch"):
+            if sh("git -C %s apply --check %s" % (REPO, m["patch"])).returncode != 0:
+                print("SKIP %-28s patch does not apply" % m["id"])
+                fails += 1
+                continue
+        else:
+            path = os.path.join(REPO, m["file"])
+            src = open(path).read()
+            if src.count(m["old"]) != 1:
+                print("SKIP %-28s pattern occurs %d times in %s" % (m["id"], src.count(m["old"]), m["file"]))
+                fails += 1
+                continue
         try:
-            open(path, "w").write(src.replace(m["old"], m["new"]))
+            if m.get("patch"):
+                sh("git -C %s apply %s" % (REPO, m["patch"]))
+            else:
+                open(path, "w").write(src.replace(m["old"], m["new"]))
             r = sh([os.path.join(HERE, "check"), m["prop"], "--tier", m["tier"], "--brief"])
         finally:
             sh("git -C %s checkout -- ." % REPO)
